@@ -37,3 +37,15 @@ From Coq Require Import String.
 Example C08_census_no_raw_source_read :
   raw_source_reads = [] /\ read_levels_calls_not_on_in_memory_buffer = [].
 Proof. split; reflexivity. Qed.
+
+(** For every conformant file (every byte string the independent validator
+    accepts) the outcome under ANY schedule is exactly the file's records. *)
+From PQ Require Import MetaTypes FileSpec ForeignProofs ConformantFaults.
+Theorem C08_conformant_any_schedule : forall (decompress : Z -> bytes -> option bytes) fs file v,
+  check_file decompress file = inr v -> fv_fields v = fs -> fshape_ok fs ->
+  (forall x, decompress CODEC_UNCOMPRESSED x = Some x) ->
+  (forall c x y, wf_bytes x -> decompress c x = Some y -> wf_bytes y) ->
+  wf_bytes file ->
+  forall sched, read_all_src decompress fs (mk_src file sched None) = expected_outcome v.
+Proof. exact conformant_any_schedule. Qed.
+Print Assumptions C08_conformant_any_schedule.
